@@ -605,6 +605,27 @@ def no_tolerance_shortcut(chk, repo, pid):
                f'`{seg(f, node)[:80]}` decides a branch: with the default absolute tolerance values below 1e-8 count as equal, '
                f'whatever their unit or scale', f.loc(node))
     chk.ob(clause, 'T-tolerance', '+'.join(mods), 'no tolerance shortcut', not bad, f'{n} functions scanned', '')
+    # rounding to a fixed number of decimals is the same thing said differently: an absolute grid of 1e-k in whatever unit
+    # the data happen to be in (1e-9 is nothing for nanometre numbers and one nanometre for wavelengths in metres)
+    badd = []
+    for f in repo.all_functions():
+        if f.module.name not in mods:
+            continue
+        for node in ast.walk(f.node):
+            if isinstance(node, ast.Call) and (dotted(node.func) or '').split('.')[-1] in ('round', 'around', 'round_') and \
+                    (dotted(node.func) or '').split('.')[0] in ('np', 'numpy', 'round'):
+                dec = node.args[1] if len(node.args) > 1 else next((k.value for k in node.keywords if k.arg in ('decimals', 'ndigits')), None)
+                if dec is not None and not (isinstance(dec, ast.Constant) and dec.value in (0, None)):
+                    badd.append((f, node))
+            elif isinstance(node, ast.Call) and isinstance(node.func, ast.Attribute) and node.func.attr == 'round' and \
+                    (node.args or any(k.arg == 'decimals' for k in node.keywords)):
+                dec = node.args[0] if node.args else next(k.value for k in node.keywords if k.arg == 'decimals')
+                if not (isinstance(dec, ast.Constant) and dec.value in (0, None)):
+                    badd.append((f, node))
+    for f, node in badd:
+        chk.ob(clause, 'T-tolerance', f.key, 'no rounding to a fixed number of decimals', False,
+               f'`{seg(f, node)[:80]}` snaps values to an absolute grid: what survives depends on the unit and scale of the data',
+               f.loc(node))
     # np.arange with a fractional step: the number of samples depends on rounding (stop - start)/step, so arrays built
     # from it are one sample longer for some sizes - shapes stop being a function of the arguments' shapes
     badr = []
